@@ -44,10 +44,11 @@ const (
 	kNewSA
 	kSharedDecode
 	kSharedUnprotect
+	kRefused // inputs and arguments the library REFUSES (error paths), with own objects like everything else
 	nKinds
 )
 
-var kindNames = []string{"encode", "decode", "protect", "unprotect", "ikekeys", "childkeys", "dh", "mapping", "eap", "random", "newsa", "shareddecode", "sharedunprotect"}
+var kindNames = []string{"encode", "decode", "protect", "unprotect", "ikekeys", "childkeys", "dh", "mapping", "eap", "random", "newsa", "shareddecode", "sharedunprotect", "refused"}
 
 // per-goroutine state: objects no other goroutine touches
 type slot struct {
@@ -222,6 +223,33 @@ func runOp(kind int, r *core.Rng, s *slot, sh *sharedIn) (digest string, rnd []b
 			return fmt.Sprint("CONTRACT NewIKESAKey: ", err), nil
 		}
 		return "ok", pub
+	case kRefused:
+		var outs []interface{}
+		// a malformed EAP-AKA' packet (zero-length attribute of a kind without a dedicated reader, zero-length AT_CHECKCODE, truncated)
+		for _, pkt := range [][]byte{
+			{1, r.Byte(), 0, 12, 50, 1, 0, 0, byte(r.Pick(134, 200, 129, 23)), 0, 0, 0},
+			{1, r.Byte(), 0, 16, 50, 1, 0, 0, 1, 5, 0, 0, 1, 2, 3, 4},
+			{2, r.Byte(), 0, 9, 50, 1, 0, 0, 24},
+		} {
+			outs = append(outs, new(eap.EAP).Unmarshal(pkt) != nil)
+		}
+		outs = append(outs, eap.NewEapAkaPrime(1).SetAttr(eap.AT_RAND, r.Bytes(r.Intn(15))) != nil)
+		_, merr := (&eap.EAP{Code: 1, Identifier: r.Byte(), EapTypeData: &eap.EapIdentity{}}).Marshal()
+		outs = append(outs, merr != nil)
+		var c message.IKEPayloadContainer
+		outs = append(outs, c.BuildNotify5G_QOS_INFO(r.Byte(), make([]uint8, 256+r.Intn(50)), true, false, 0) != nil, c.BuildEAP5GNAS(r.Byte(), make([]byte, 65536+r.Intn(100))) != nil)
+		// garbage and truncated datagrams, a tampered protected one
+		outs = append(outs, new(message.IKEMessage).Decode(r.Bytes(r.Intn(60))) != nil)
+		if s.last != nil && len(s.last) > 40 {
+			t := append([]byte{}, s.last...)
+			t[len(t)-1-r.Intn(20)] ^= 0x20
+			_, err := ike.DecodeDecrypt(t, nil, s.peer, message.Role_Responder)
+			outs = append(outs, err != nil)
+		}
+		_, _, _, _, _, perr := eap.EapAkaPrimePRF(nil, r.Bytes(16), "x")
+		_, cerr := s.key.Encr_i.Decrypt(r.Bytes(1 + r.Intn(15)))
+		outs = append(outs, perr != nil, cerr != nil)
+		return dg(outs...), nil
 	case kSharedUnprotect:
 		// one protected datagram and one EAP-AKA' packet, shared read-only by all goroutines; each goroutine
 		// unprotects / verifies with its OWN key objects built from the same raw keys
